@@ -283,6 +283,7 @@ class Registry:
                                     (z3.Not(z3.Or(alien, *[ks == z3.StringVal(c) for c in o.d])), VStr(ks)),
                                     (z3.And(z3.Not(alien), z3.Or(*[ks == z3.StringVal(c) for c in o.d])) if o.d
                                      else z3.BoolVal(False), VStr(z3.Concat(ks, z3.StringVal("\x00other"))))])
+            o.alien = alien
             o.frozen = True
         if path:
             state.paths[r.oid] = path
